@@ -16,6 +16,9 @@ import json, os, sys, time, traceback, hashlib
 ROOT = os.path.dirname(os.path.dirname(os.path.abspath(__file__)))
 REPO = os.environ.get("VERIF_REPO", "/repo")
 KNOWN = os.path.join(ROOT, "known_findings.jsonl")
+# seeded-mutation runs against a scratch worktree (VERIF_REPO=...) write their evidence / replay files elsewhere
+EVIDENCE_DIR = os.environ.get("VERIF_EVIDENCE_DIR") or os.path.join(ROOT, "evidence")
+OUT_DIR = os.environ.get("VERIF_OUT_DIR") or os.path.join(ROOT, "out")
 
 
 def tier_seed(argv=None):
@@ -95,7 +98,7 @@ class Check:
         self.assumptions = []
         self.exhaustive = None
         self._known = [k for k in load_known() if k.get("property") == prop and k.get("status") == "known"]
-        self.outdir = os.path.join(ROOT, "out", prop)
+        self.outdir = os.path.join(OUT_DIR, prop)
         self._printed_known = set()
         self.viol_keys = {}
         self.dry = False      # selftests: do not write evidence
@@ -175,8 +178,8 @@ class Check:
               "coverage": jsonable(cov), "assumptions": self.assumptions,
               "wall_s": round(time.time() - self.t0, 2), "violations": self.violations}
         if not self.dry:
-            os.makedirs(os.path.join(ROOT, "evidence"), exist_ok=True)
-            with open(os.path.join(ROOT, "evidence", self.prop + ".json"), "w") as f:
+            os.makedirs(EVIDENCE_DIR, exist_ok=True)
+            with open(os.path.join(EVIDENCE_DIR, self.prop + ".json"), "w") as f:
                 json.dump(ev, f, indent=1)
         for k, n in sorted(self.viol_keys.items()):
             print("  violation class %s: %d" % (k, n))
